@@ -8,6 +8,7 @@ what the reader builds from the csv tables. The theorems below are re-checked ag
 import UwgVerif.Gen.RefTables
 import UwgVerif.Props.C11
 import Mathlib.Algebra.Order.Field.Rat
+import Mathlib.Tactic.Positivity
 
 namespace Uwg.C19
 open Uwg Uwg.RefLib Uwg.Gen
@@ -28,20 +29,20 @@ theorem shipped_complete : shipped.length = 768 := by decide +kernel
     least two layers with positive thickness, conductivity and heat capacity; the listed
     fractions lie in [0, 1]; floor height, COP, U-value, capacities and initial temperature are
     positive; all seven schedules are 3 × 24. -/
-theorem all_wellformed : shipped.all (rowOk shippedConstructions) = true := by
+theorem all_wellformed : shipped.all (rowOk nFracs nPos shippedConstructions) = true := by
   decide +kernel
 
 /-! ### Bridge to C11: a well-formed construction can always be stepped by `Conduction`. -/
 
-def toQ (x : Dbl) : ℚ := (x.1 : ℚ) / (x.2 : ℚ)
+/-- The rational value `m / 2^e` of an exported double. -/
+def toQ (x : Dbl) : ℚ := (x.1 : ℚ) / (2 : ℚ) ^ x.2
 
 theorem toQ_pos {x : Dbl} (h : x.pos = true) : 0 < toQ x := by
   unfold Dbl.pos at h
-  simp only [Bool.and_eq_true, decide_eq_true_eq] at h
+  simp only [decide_eq_true_eq] at h
   unfold toQ
-  have h1 : (0 : ℚ) < x.1 := by exact_mod_cast h.1
-  have h2 : (0 : ℚ) < x.2 := by exact_mod_cast h.2
-  exact div_pos h1 h2
+  have h1 : (0 : ℚ) < x.1 := by exact_mod_cast h
+  exact div_pos h1 (by positivity)
 
 /-- The layers of a construction at given temperatures (missing temperatures read as 0; the
     theorem below quantifies over the temperature list, so nothing depends on that default). -/
@@ -85,7 +86,8 @@ theorem wellformed_solvable (c : List (Dbl × Dbl × Dbl)) (hc : consOk c = true
 /-- T3 applied to the table: the wall, roof and mass of every shipped archetype are solvable. -/
 theorem shipped_solvable (r : ArchRow) (hr : r ∈ shipped) :
     ∃ w ro m, shippedConstructions[r.wall]? = some w ∧ shippedConstructions[r.roof]? = some ro ∧
-      shippedConstructions[r.mass]? = some m ∧ consOk w = true ∧ consOk ro = true ∧ consOk m = true := by
+      shippedConstructions[r.mass]? = some m ∧ consOk (layersOfCode w) = true ∧
+      consOk (layersOfCode ro) = true ∧ consOk (layersOfCode m) = true := by
   have h := List.all_eq_true.mp all_wellformed r hr
   unfold rowOk at h
   simp only [Bool.and_eq_true] at h
@@ -93,7 +95,7 @@ theorem shipped_solvable (r : ArchRow) (hr : r ∈ shipped) :
   split at h1
   · rename_i w ro m hw hro hm
     simp only [Bool.and_eq_true] at h1
-    exact ⟨w, ro, m, hw, hro, hm, h1.1.1, h1.1.2, h1.2⟩
+    exact ⟨w, ro, m, hw, hro, hm, h1.1.1.1.1.1, h1.1.1.1.2, h1.1.2⟩
   · simp at h1
 
 end Uwg.C19
